@@ -31,19 +31,95 @@ _CACHE: Dict[str, Any] = {}
 # source extraction
 # ------------------------------------------------------------------------------------------------------
 
+def _local_names(func: ast.FunctionDef) -> set:
+    """names bound inside the function (parameters, assignment / loop / with / except / comprehension targets)"""
+    out = set()
+    a = func.args
+    for x in a.posonlyargs + a.args + a.kwonlyargs + ([a.vararg] if a.vararg else []) + ([a.kwarg] if a.kwarg else []):
+        out.add(x.arg)
+    for n in ast.walk(func):
+        if isinstance(n, ast.Name) and isinstance(n.ctx, (ast.Store, ast.Del)):
+            out.add(n.id)
+        elif isinstance(n, ast.ExceptHandler) and n.name:
+            out.add(n.name)
+        elif isinstance(n, (ast.FunctionDef, ast.AsyncFunctionDef)) and n is not func:
+            out.add(n.name)
+            for x in n.args.posonlyargs + n.args.args + n.args.kwonlyargs:
+                out.add(x.arg)
+        elif isinstance(n, ast.Lambda):
+            for x in n.args.posonlyargs + n.args.args + n.args.kwonlyargs:
+                out.add(x.arg)
+    out.discard("self")
+    return out
+
+
+_GLOBALS: Dict[str, set] = {}
+
+
+def _module_globals() -> set:
+    """names that are NOT locals of a method wherever they occur: builtins and the module-level names of evaluation.py"""
+    key = str(REPO)
+    if key not in _GLOBALS:
+        import builtins
+        g = set(dir(builtins)) | {"self"}
+        for st in parse("src/celpy/evaluation.py").body:
+            if isinstance(st, (ast.Import, ast.ImportFrom)):
+                for al in st.names:
+                    g.add((al.asname or al.name).split(".")[0])
+            elif isinstance(st, (ast.FunctionDef, ast.ClassDef, ast.AsyncFunctionDef)):
+                g.add(st.name)
+            else:
+                for n in ast.walk(st):
+                    if isinstance(n, ast.Name) and isinstance(n.ctx, ast.Store):
+                        g.add(n.id)
+        _GLOBALS[key] = g
+    return _GLOBALS[key]
+
+
+def _shape(node: ast.AST, is_local) -> Tuple[str, Tuple[str, ...]]:
+    """(text with every local name replaced by a numbered placeholder in order of first occurrence, the local names
+    in that order): two expressions have the same shape iff one is the other up to a consistent (injective) renaming
+    of locals"""
+    order: List[str] = []
+
+    class Ren(ast.NodeTransformer):
+        def visit_Name(self, n):
+            if is_local(n.id):
+                if n.id not in order:
+                    order.append(n.id)
+                return ast.copy_location(ast.Name(id=f"_L{order.index(n.id)}", ctx=n.ctx), n)
+            return n
+
+    t = ast.unparse(Ren().visit(ast.parse(ast.unparse(node), mode="eval").body))
+    return t, tuple(order)
+
+
 def _enclosing(func: ast.FunctionDef, text: str, under: Optional[str], which: int):
     """-> (node, [Try statements whose BODY contains the node]) for the `which`-th node (source order)
-    whose unparsed text equals `text` (and that sits inside an `if` with test `under`, when given)."""
-    found: List[Tuple[ast.AST, List[ast.Try]]] = []
+    whose unparsed text equals `text` (and that sits inside an `if` with test `under`, when given).
 
-    def walk(node, tries: List[ast.Try], ifs: List[str]):
+    Round 2: when no node has exactly that text (a local variable was renamed), the expression is located up to a
+    consistent renaming of the method's local variables — accepted only if all candidates sit under the same
+    `except` clauses (so the handler set read for the site does not depend on the choice)."""
+    found: List[Tuple[ast.AST, List[ast.Try]]] = []
+    loose: List[Tuple[ast.AST, List[ast.Try], Tuple[str, ...]]] = []
+    locs = _local_names(func)
+    glob = _module_globals()
+    want = _shape(ast.parse(text, mode="eval").body, lambda n: n not in glob)[0]
+    want_under = _shape(ast.parse(under, mode="eval").body, lambda n: n not in glob)[0] if under else None
+
+    def walk(node, tries: List[ast.Try], ifs: List[Tuple[str, str]]):
         if isinstance(node, ast.expr):
             try:
                 t = ast.unparse(node)
             except Exception:
                 t = None
-            if t == text and (under is None or under in ifs):
+            if t == text and (under is None or under in [i[0] for i in ifs]):
                 found.append((node, list(tries)))
+            elif t is not None and type(node) in (ast.Call, ast.Subscript, ast.Attribute, ast.BinOp, ast.Compare):
+                sh = _shape(node, lambda n: n in locs and n not in glob)
+                if sh[0] == want and (under is None or under in [i[0] for i in ifs] or want_under in [i[1] for i in ifs]):
+                    loose.append((node, list(tries), sh[1]))
         if isinstance(node, ast.Try):
             for st in node.body:
                 walk(st, tries + [node], ifs)
@@ -56,8 +132,9 @@ def _enclosing(func: ast.FunctionDef, text: str, under: Optional[str], which: in
         if isinstance(node, ast.If):
             walk(node.test, tries, ifs)
             test = ast.unparse(node.test)
+            tshape = _shape(node.test, lambda n: n in locs and n not in glob)[0]
             for st in node.body:
-                walk(st, tries, ifs + [test])
+                walk(st, tries, ifs + [(test, tshape)])
             for st in node.orelse:
                 walk(st, tries, ifs)
             return
@@ -70,9 +147,18 @@ def _enclosing(func: ast.FunctionDef, text: str, under: Optional[str], which: in
             walk(ch, tries, ifs)
 
     walk(func, [], [])
-    if len(found) <= which:
-        raise TranslationError(f"{func.name}: expression `{text}` (occurrence {which}) not found")
-    return found[which]
+    if len(found) > which:
+        return found[which]
+    if not found and loose:
+        # candidates written with the same local names are the occurrences of ONE renamed text: `which` selects among
+        # them as before; candidates over different names are acceptable only if they agree on the except clauses
+        groups = {names for _, _, names in loose}
+        hs = {tuple(_handler_names(t)) for _, t, _ in loose}
+        if (len(groups) == 1 or len(hs) == 1) and len(loose) > which:
+            return loose[which][:2]
+        raise TranslationError(f"{func.name}: expression `{text}` not found; {len(loose)} candidates up to renaming of locals "
+                               f"sit under different except clauses")
+    raise TranslationError(f"{func.name}: expression `{text}` (occurrence {which}) not found")
 
 
 def _handler_names(tries: List[ast.Try]) -> List[str]:
@@ -113,6 +199,104 @@ def _single_try_handlers(func: ast.FunctionDef, what: str) -> List[str]:
     if len(tries) != 1:
         raise TranslationError(f"{what}: expected exactly one try statement, found {len(tries)}")
     return _handler_names(tries)
+
+
+# ------------------------------------------------------------------------------------------------------
+# what the `except` handler bodies do (round 2)
+# ------------------------------------------------------------------------------------------------------
+# The skeleton (Model/Total.lean `catchWith`) turns a caught exception into an error VALUE: it assumes that the
+# handler body itself cannot raise.  `handler_ops` reads, for every `except` clause on the path
+# compile -> program -> evaluate, the operations the body applies (calls, subscripts, arithmetic, comparisons,
+# loops, f-string conversions); the bridge `handler_bodies_pure` checks them against a short list of operations
+# that cannot raise.  A handler that starts computing on operand values (sorting keys for a nicer message,
+# rendering a source excerpt, indexing a list of lines) leaves that list.
+
+HANDLER_SCOPES = (
+    # (file, dotted prefix of the enclosing class/function; "" = whole module is NOT meant: list scopes explicitly)
+    ("src/celpy/evaluation.py", "Evaluator"),
+    ("src/celpy/evaluation.py", "Transpiler.evaluate"),
+    ("src/celpy/evaluation.py", "result"),
+    ("src/celpy/evaluation.py", "eval_error"),
+    ("src/celpy/celparser.py", "CELParser.parse"),
+    ("src/celpy/__init__.py", "Runner"),
+    ("src/celpy/__init__.py", "InterpretedRunner"),
+    ("src/celpy/__init__.py", "CompiledRunner"),
+    ("src/celpy/__init__.py", "Environment"),
+)
+
+
+def _callee(n: ast.AST) -> str:
+    """text of a callee with the ARGUMENTS of inner calls dropped: `CELEvalError(a, b).with_traceback` ->
+    `CELEvalError().with_traceback` (argument names are locals; the operations inside them are collected apart)"""
+    if isinstance(n, ast.Attribute):
+        return _callee(n.value) + "." + n.attr
+    if isinstance(n, ast.Call):
+        return _callee(n.func) + "()"
+    return ast.unparse(n)
+
+
+def _handler_body_ops(h: ast.ExceptHandler) -> List[str]:
+    name = h.name
+
+    class Ren(ast.NodeTransformer):
+        def visit_Name(self, n):            # `except … as err` vs `as ex`: the same handler
+            if name and n.id == name:
+                return ast.copy_location(ast.Name(id="ex", ctx=n.ctx), n)
+            return n
+
+    out: List[str] = []
+
+    def add(x):
+        if x not in out:
+            out.append(x)
+
+    for st in h.body:
+        st = Ren().visit(ast.parse(ast.unparse(st)))
+        for n in ast.walk(st):
+            if isinstance(n, ast.Call):
+                f = _callee(n.func)
+                if f in ("str", "repr", "format", "sorted", "min", "max", "sum", "len", "int", "float", "list", "dict", "set", "tuple"):
+                    f += "(" + ", ".join(ast.unparse(a) for a in n.args) + ")"     # total or not depends on the argument
+                add("call:" + f)
+            elif isinstance(n, ast.Starred):
+                add("star:" + ast.unparse(n.value))
+            elif isinstance(n, ast.Subscript):
+                add("sub:" + ast.unparse(n))
+            elif isinstance(n, (ast.BinOp, ast.AugAssign)):
+                add("op:" + type(n.op).__name__)
+            elif isinstance(n, ast.UnaryOp) and not isinstance(n.op, ast.Not):
+                add("op:" + type(n.op).__name__)
+            elif isinstance(n, ast.Compare):
+                add("cmp:" + ",".join(type(o).__name__ for o in n.ops))
+            elif isinstance(n, ast.FormattedValue):
+                add("fmt")
+            elif isinstance(n, (ast.For, ast.While, ast.ListComp, ast.GeneratorExp, ast.DictComp, ast.SetComp)):
+                add("iter")
+            elif isinstance(n, (ast.With, ast.Try, ast.Assert, ast.Delete, ast.Await, ast.Yield, ast.YieldFrom, ast.Import, ast.ImportFrom)):
+                add("stmt:" + type(n).__name__)
+    return sorted(out)
+
+
+def handler_ops() -> List[Tuple[str, str]]:
+    """[(scope.function, operation)] over every except handler in HANDLER_SCOPES, sorted, without duplicates"""
+    out: List[Tuple[str, str]] = []
+    mods: Dict[str, ast.Module] = {}
+    for file, scope in HANDLER_SCOPES:
+        m = mods.setdefault(file, parse(file))
+
+        def walk(node, path):
+            for ch in ast.iter_child_nodes(node):
+                p = path + [ch.name] if isinstance(ch, (ast.ClassDef, ast.FunctionDef, ast.AsyncFunctionDef)) else path
+                if isinstance(ch, ast.Try):
+                    q = ".".join(path)
+                    if q == scope or q.startswith(scope + "."):
+                        for h in ch.handlers:
+                            for op in _handler_body_ops(h):
+                                if (q, op) not in out:
+                                    out.append((q, op))
+                walk(ch, p)
+        walk(m, [])
+    return sorted(out)
 
 
 # ------------------------------------------------------------------------------------------------------
@@ -172,9 +356,13 @@ def compute() -> Dict[str, Any]:
     ev_eval = find_func(evcls.body, "evaluate")
     if any(isinstance(n, ast.Try) for n in ast.walk(ev_eval)):
         raise TranslationError("Evaluator.evaluate: unexpected try statement (the model has none)")
-    raises_value = any(isinstance(n, ast.Raise) and n.exc is not None and ast.unparse(n.exc) == "value" for n in ast.walk(ev_eval))
+    # `value = self.visit(self.ast)` … `raise value` (whatever the local is called)
+    visited = {t.id for n in ast.walk(ev_eval) if isinstance(n, (ast.Assign, ast.AnnAssign)) and n.value is not None
+               and ast.unparse(n.value) == "self.visit(self.ast)"
+               for t in (n.targets if isinstance(n, ast.Assign) else [n.target]) if isinstance(t, ast.Name)}
+    raises_value = any(isinstance(n, ast.Raise) and isinstance(n.exc, ast.Name) and n.exc.id in visited for n in ast.walk(ev_eval))
     if not raises_value:
-        raise TranslationError("Evaluator.evaluate: `raise value` not found")
+        raise TranslationError("Evaluator.evaluate: `raise <the visited value>` not found")
     res = [_resolve(n, ev_mod) for n in _single_try_handlers(find_func(ev.body, "result"), "result()")]
     pcls = find_class(cp, "CELParser")
     parse_f = find_func(pcls.body, "parse")
@@ -223,7 +411,7 @@ def compute() -> Dict[str, Any]:
     ids = {c: i for i, c in enumerate(classes)}
 
     out = dict(errors=errors, sites=sites, handlers=handlers, runc=runc, result=res, parse=parse_h, lark=lark_raised,
-               measured=measured, classes=classes, ids=ids, M=M)
+               measured=measured, classes=classes, ids=ids, M=M, handler_ops=handler_ops())
     _CACHE[key] = out
     return out
 
@@ -267,6 +455,11 @@ def gen_handlers() -> str:
     for nm, c in (("idException", Exception), ("idTypeError", TypeError), ("idBaseException", BaseException),
                   ("idRecursionError", RecursionError), ("idKeyboardInterrupt", KeyboardInterrupt)):
         o.append(f"def {nm} : Nat := {ids[c]}")
+    o.append("")
+    o.append("/-- operations applied inside the bodies of the `except` clauses on the path compile → program → evaluate")
+    o.append("    (function, operation): `call:<callee>`, `sub:<subscript>`, `op:<operator>`, `cmp:<operators>`, `fmt` (f-string")
+    o.append("    conversion), `iter` (loop / comprehension / unpacking), `stmt:<kind>`. The skeleton assumes a handler body cannot raise. -/")
+    o.append("def handlerOps : List (String × String) := " + lean_list([f"({lean_str(a)}, {lean_str(b)})" for a, b in d["handler_ops"]]))
     o.append("\nend Cel.Gen.Handlers\n")
     return "\n".join(o)
 
